@@ -161,9 +161,9 @@ CLAIMED = {
    design="§5 C18"),
  "C19": dict(
    text="Theorems (Props/C19.lean): every cell (frame f, person p, keypoint k) of the loaded pose holds the x, y, confidence of opCell and is missing exactly when that confidence is 0 (openpose_cell); a present keypoint k of component c is "
-        "(numbers[3k], numbers[3k+1], numbers[3k+2]) found at the running offset = sum of the earlier components' keypoint counts (openpose_present, via personKeypoints_get / triplesOf_get); absent frames / people are all zeros hence missing "
-        "(openpose_absent); frame count = requested or max id + 1, every present id is below it, fps recorded (loaded_meta); get_frame_id modelled as a matcher with re.findall semantics, proved to return the digit group for names with a digit-free prefix "
-        "(frame_id_conforming; general prefixes are compared with Python's re by the check). The real load_openpose / load_openpose_directory are run on dictionaries with a distinct value per cell. Partial: the loops are modelled in closed form.",
+        "(numbers[3k], numbers[3k+1], numbers[3k+2]) found at the component's own header offset = sum of the earlier components' point counts (openpose_present, via locate_offset / triplesOf_get), whatever the earlier lists contain; a list that is empty or stops early "
+        "leaves the rest of that component zero, hence missing, and shifts nothing (openpose_short_component); absent frames / people are all zeros hence missing (openpose_absent); frame count = requested or max id + 1, every present id is below it, fps recorded (loaded_meta); get_frame_id modelled as a matcher with re.findall semantics, proved to return the digit group for names with a digit-free prefix "
+        "(frame_id_conforming; general prefixes are compared with Python's re by the check). The real load_openpose / load_openpose_directory are run on dictionaries with a distinct value per cell, shuffled and foreign keys, empty component lists. Partial: the loops are modelled in closed form.",
    technique="Lean 4 proof (list indexing of the running keypoint offset; induction over the scanned prefix for the file-name matcher) + cell-by-cell differential run",
    design="§5 C19"),
  "C20": dict(
